@@ -400,7 +400,8 @@ func (m *matcher) matchMeta(name, kind string, nc reflect.Value, b *Bindings, k 
 		}
 	}
 	if prev, ok := b.Vars[name]; ok {
-		if canon.Node(prev.Interface(), canon.Options{}) != canon.Node(nc.Interface(), canon.Options{}) {
+		// repeated occurrences must stand for token-identical code: `a` and `(a)` differ
+		if canon.Node(prev.Interface(), canon.Options{KeepParens: true}) != canon.Node(nc.Interface(), canon.Options{KeepParens: true}) {
 			return false
 		}
 		return k(b)
@@ -1082,4 +1083,68 @@ func (a *Analysis) describe(u unit) string {
 		}
 	}
 	return d
+}
+
+// ---------------------------------------------------------------------------
+// Sequences of changes (one patch file with several changes)
+
+// SeqResult is the model's prediction for a sequence of changes applied in
+// order, each to what the previous one produced.
+type SeqResult struct {
+	Canon     map[string]string // permitted final results: canonical form -> source
+	Applied   []bool            // per change: does it apply on at least one path
+	Err       error             // some step cannot instantiate its '+' side
+	ErrStep   int
+	TooMany   bool
+	Unparse   bool // some permitted intermediate/final result does not parse
+	Mandatory int
+	Optional  int
+}
+
+// AllowedSeq chains AllowedOutputs over the changes.
+func AllowedSeq(ccs []*Compiled, src []byte, opts canon.Options) (*SeqResult, error) {
+	res := &SeqResult{Applied: make([]bool, len(ccs)), ErrStep: -1}
+	c0, err := canon.Source(src, opts)
+	if err != nil {
+		return nil, err
+	}
+	cur := map[string]string{c0: string(src)}
+	for i, cc := range ccs {
+		next := map[string]string{}
+		for c, s := range cur {
+			f, err := ParseFile([]byte(s))
+			if err != nil {
+				return nil, fmt.Errorf("model: intermediate result does not parse: %v\n%s", err, s)
+			}
+			a := Analyze(cc, f)
+			al := a.AllowedOutputs(opts)
+			switch {
+			case al.TooMany:
+				res.TooMany = true
+				return res, nil
+			case !al.Applies:
+				next[c] = s
+				continue
+			case al.Err != nil:
+				res.Err, res.ErrStep = al.Err, i
+				return res, nil
+			}
+			res.Applied[i] = true
+			res.Mandatory += al.Mandatory
+			res.Optional += al.Optional
+			if al.Unparse > 0 {
+				res.Unparse = true
+			}
+			for c2, s2 := range al.Canon {
+				next[c2] = s2
+			}
+		}
+		if len(next) > 64 {
+			res.TooMany = true
+			return res, nil
+		}
+		cur = next
+	}
+	res.Canon = cur
+	return res, nil
 }
